@@ -329,7 +329,8 @@ pub fn witnesses() -> Vec<crate::W> {
     ]
 }
 
-/// reproduces on the current tree (open finding, see props/C20.json): exactness of Value::Number through serde_json
+/// exactness of Value::Number through serde_json: REPRODUCES on a tree without commit 5aa6226 (`float_roundtrip`), see props/C20.json.
+/// Coordinator: with that commit in /repo register it with the others, otherwise list it as a known finding (witness c20_number_values).
 pub fn open_finding_witnesses() -> Vec<crate::W> {
     vec![("c20_number_values", c20_number_values as fn() -> (bool, String))]
 }
